@@ -4,7 +4,7 @@
    of coq/C04/Spec.v.  Proofs are in coq/C04/Proofs*.v; nothing here but statements.
    Every theorem is for ALL configurations (any number and kind of processors), all start options and
    ALL sequences of operations (incl. operations after End and further Ends). *)
-From V Require Import C04.Glue C04.ProofsMap C04.ProofsStep C04.ProofsMeets C04.ProofsHeap C04.ProofsProps C04.ProofsWire C04.ProofsPar C04.ProofsRace C04.ProofsLts C04.ProofsLtsOrder C04.ProofsLtsRace.
+From V Require Import C04.Glue C04.ProofsMap C04.ProofsStep C04.ProofsMeets C04.ProofsHeap C04.ProofsProps C04.ProofsWire C04.ProofsPar C04.ProofsRace C04.ProofsLts C04.ProofsLtsOrder C04.ProofsLtsRace C04.ProofsLtsCut.
 Local Open Scope Z_scope.
 
 (* --- sentence 1: what each configured processor's exporter receives.  The whole final state of a case:
@@ -254,3 +254,18 @@ Theorem accepted_trace_race_clauses_ab : forall (c : cfg aval) (s : start aval) 
     end) ++ check (isrec_ok (hist_of evs) (number_threads 0 ths)) isrec_tag)%list.
 Proof. exact ProofsLtsRace.accepted_trace_race_clauses_ab. Qed.
 Print Assumptions accepted_trace_race_clauses_ab.
+
+(* --- every accepted trace passes SpecRace's clause (c): the checker's search finds a cut - the End that took mu_ first, and
+   for every thread the calls that took mu_ before it - for which duration, name, status and attributes are as the clause
+   demands.  PARTIAL: proved for runs in which no thread adds events (the events part of the clause - count, order and
+   attribute maps of the exported events - is decided by the executable SPEC on the explored schedules only); the hypothesis
+   [complete_history] (exactly the scripted calls begin, all return, a thread's calls do not overlap) is what [history_ok]
+   checks on every run; clause (d) (the answers of IsRecording) is likewise left to the executable SPEC. *)
+Theorem accepted_trace_passes_cut_partial : forall (c : cfg aval) (s : start aval) (ths : list (list (op aval))) evs s' xe,
+  replay (conv_threads ths) (linit (map_cfg conv c) (map_start conv s)) (fun _ => O) evs 0 = inl s' ->
+  complete_history ths (hist_of evs) ->
+  valid ths xe -> is_end (opa ths xe) = true ->
+  (forall x, valid ths x -> match opa ths x with Event _ _ _ => False | _ => True end) ->
+  race_cut_exists (hist_of evs) s (number_threads 0 ths) (export (map_cfg conv c) (map_start conv s) (l_lin s')) = true.
+Proof. exact ProofsLtsCut.accepted_trace_passes_cut_partial. Qed.
+Print Assumptions accepted_trace_passes_cut_partial.
